@@ -8,6 +8,7 @@ import (
 	"io"
 	"net"
 	"net/http"
+	"regexp"
 	"strings"
 	"testing"
 	"time"
@@ -54,7 +55,12 @@ var subRaw = ev.Register("raw-exchanges",
 		defer org.Close()
 		env := px.New(px.Opts{RetryInvalid: strings.Contains(c.Headers, "retry"), Retry416: true})
 		defer env.Close()
-		sub := func(s string) string { return strings.ReplaceAll(s, "@", org.Addr()) }
+		// "@" is the origin's address, "~" the proxy's own
+		sub := func(s string) string {
+			return strings.ReplaceAll(strings.ReplaceAll(s, "@", org.Addr()), "~", env.Addr())
+		}
+		// the target is the proxy itself: named in the request line, or in Host when the line names no authority
+		selfAddressed := strings.Contains(c.Line, "~") || (strings.Contains(c.HostHdr, "~") && !hasAuthority.MatchString(c.Line))
 		if c.Prime {
 			env.Plain(px.Req{Method: "GET", Host: org.Addr(), Target: "/r", ReqID: "prime"})
 		}
@@ -141,6 +147,9 @@ var subRaw = ev.Register("raw-exchanges",
 			return ev.Failf("raw.handler-panic", "%s :: %s", desc, p)
 		}
 		if rerr != nil {
+			if reached && selfAddressed {
+				return ev.Failf("raw.unanswered:self-addressed", "%s :: the request names the proxy's own address; it reached the handler but no response came back: %v", desc, rerr)
+			}
 			if reached {
 				return ev.Failf("raw.unanswered", "%s :: the request reached the proxy handler but no well-formed response came back: %v", desc, rerr)
 			}
@@ -154,6 +163,8 @@ var subRaw = ev.Register("raw-exchanges",
 		}
 		return nil
 	})
+
+var hasAuthority = regexp.MustCompile(`://[^/\s]`)
 
 type bufConn struct {
 	net.Conn
@@ -225,5 +236,20 @@ func TestRawExchanges(t *testing.T) {
 			}
 		}
 		return c
+	})
+}
+
+// Requests that name the proxy itself as their target. Each costs the full read deadline while the recorded
+// finding (raw.unanswered:self-addressed) stands, so they are a handful of cases of their own instead of a
+// share of the exchanges above.
+func TestSelfAddressed(t *testing.T) {
+	subRaw.CheckSalt(t, 5, ev.N(3, 24), func(t *rapid.T) Raw {
+		return Raw{
+			Transport: "plain",
+			Line:      rapid.SampledFrom([]string{"GET http://~/r HTTP/1.1", "GET /r HTTP/1.1", "HEAD http://~/ HTTP/1.1", "GET http:// HTTP/1.1"}).Draw(t, "self-line"),
+			HostHdr:   "~",
+			Headers:   rapid.SampledFrom([]string{"", "Range: bytes=0-3\r\n", "Cache-Control: no-cache\r\n"}).Draw(t, "self-headers"),
+			Connect:   "@",
+		}
 	})
 }
